@@ -1113,7 +1113,12 @@ class Interp:
                 return {"lt": a < b, "le": a <= b, "gt": a > b, "ge": a >= b}[name]
             raise Unsupported("ordering of non-numeric values")
         if isinstance(a, (FuncV, ClassV, ExtV, ModV)) or isinstance(b, (FuncV, ClassV, ExtV, ModV)):
-            same = a == b if type(a) == type(b) and not isinstance(a, FuncV) else (a is b or (isinstance(a, FuncV) and isinstance(b, FuncV) and a.node is b.node))
+            if isinstance(a, ExtV) and isinstance(b, ExtV):
+                same = a.name == b.name
+            elif isinstance(a, ModV) and isinstance(b, ModV):
+                same = a.info is b.info
+            else:
+                same = a is b or (type(a) == type(b) and isinstance(a, (FuncV, ClassV)) and a.node is b.node)
             return same if name == "eq" else (not same)
         return scalar_compare(name, a, b)
 
@@ -1692,7 +1697,7 @@ def _same(a: Any, b: Any) -> bool:
 def _hashable(x: Any) -> bool:
     try:
         hash(x)
-        return isinstance(x, (str, int, tuple, bool, type(None), sp.Basic, T))
+        return isinstance(x, (str, int, tuple, bool, type(None), sp.Basic, T, ExtV, FuncV, ClassV))
     except Exception:
         return False
 
